@@ -48,7 +48,7 @@ expressions   int / bool constants, None and [] (typed by the rest of the functi
               isinstance(<array>, categorical_ndarray);   truth value of subset_state, of a bool, of random_subset;
               len(axis | view | list);  self.ndim self.size self.shape self.shape[i];  list(self.shape), tuple(x), l[i], l[a:b], l[k] of a
               comprehension;  [e for v in range(n) if c] and generator expressions (one generator over range, at most one condition);
-              a [not] in axis;  view[i], view[i].step, slice(a, b), (axis,), [axis];
+              a [not] in axis;  statistic == / != '<name>', statistic [not] in ('<name>', ..)  (names of statistics, numbered);  view[i], view[i].step, slice(a, b), (axis,), [axis];
               np.nan, np.zeros(n | shape), E * np.nan, np.broadcast_to(np.nan, shape), np.broadcast_to(m, shape), np.any(m),
               m.any(axis=l), np.where(m)[0], np.min(l), np.max(l), np.ndim(r), m.ndim, m.shape, <array>.size, <array>.codes,
               unbroadcast(x), mask[<slices>], self.get_data(cid[, view]), subset_state.to_mask(self, view), subset_state.to_array(self, cid),
@@ -102,6 +102,7 @@ GT = {'Z': 'Z', 'bool': 'bool', 'optZ': 'option Z', 'listZ': 'list Z', 'ratio': 
 
 CMP = {ast.Eq: '=?', ast.Lt: '<?', ast.LtE: '<=?', ast.Gt: '>?', ast.GtE: '>=?'}
 
+STAT_CODES = {'minimum': 0, 'maximum': 1, 'mean': 2, 'median': 3, 'sum': 4, 'percentile': 5}
 NONE_TYPE = {'subarray_slices': 'optslices', 'chunk_view': 'view', 'mask': 'optmarr', 'w': 'optharr'}
 EMPTY_TYPE = {'subarray_slices': 'slices', 'new_view': 'entries'}
 
@@ -482,6 +483,13 @@ class Fn:
                 else:
                     fail(e, 'identity test')
                 return t if isinstance(op, ast.Is) else '(negb %s)' % t
+            if isinstance(l, ast.Name) and env.get(l.id) == 'stat' and isinstance(op, (ast.In, ast.NotIn, ast.Eq, ast.NotEq)):
+                # statistic == 'sum' | statistic [not] in ('sum', 'percentile'): the names of the statistics are numbered (STAT_CODES)
+                names = [r] if isinstance(op, (ast.Eq, ast.NotEq)) else (list(r.elts) if isinstance(r, (ast.Tuple, ast.List)) else None)
+                if names is None or not all(isinstance(x, ast.Constant) and x.value in STAT_CODES for x in names):
+                    fail(e, 'test of the statistic against something other than names of statistics')
+                t = '(existsb (Z.eqb (K_stat_code %s)) [%s])' % (l.id, '; '.join('(%d)' % STAT_CODES[x.value] for x in names))
+                return t if isinstance(op, (ast.In, ast.Eq)) else '(negb %s)' % t
             if isinstance(op, (ast.In, ast.NotIn)):
                 t = '(axis_mem %s %s)' % (self.Z(l, env), self.expr(r, env, 'axis')[0])
                 return t if isinstance(op, ast.In) else '(negb %s)' % t
@@ -1215,6 +1223,7 @@ Variable self_shape : list Z.
 Definition self_ndim : Z := zlen self_shape.
 Definition self_size : Z := zprod self_shape.
 (* opaque operations *)
+Variable K_stat_code : TStat -> Z.                           (* the name of the statistic: minimum 0, maximum 1, mean 2, median 3, sum 4, percentile 5 *)
 Variable K_get_data : TCid -> pyview -> arr.                 (* self.get_data(cid, view) *)
 Variable K_is_slice_state : TState -> bool.                  (* isinstance(subset_state, SliceSubsetState) *)
 Variable K_truthy : TState -> bool.                          (* `if subset_state:` *)
